@@ -1,11 +1,14 @@
 package c11
 
 import (
+	"bytes"
 	"context"
 	"crypto/tls"
 	"fmt"
+	"io"
 	"net"
 	"net/http"
+	"net/url"
 	"strconv"
 	"strings"
 	"sync"
@@ -29,6 +32,7 @@ type caseRun struct {
 
 	origin   *rig.Peer
 	tunPeers map[int]*rig.Peer
+	upstream *rig.Peer // scripted upstream HTTP proxy (Case.Upstream)
 	conns    []*connRun
 
 	// proxy under test
@@ -51,8 +55,38 @@ type caseRun struct {
 	notesMu sync.Mutex
 }
 
-func (cr *caseRun) originHost() string  { return "origin-" + cr.nonce + ".test" }
+func (cr *caseRun) originHost() string   { return "origin-" + cr.nonce + ".test" }
 func (cr *caseRun) tunHost(k int) string { return fmt.Sprintf("tun-%d-%s.test", k, cr.nonce) }
+func (cr *caseRun) upHost() string       { return "up-" + cr.nonce + ".test" }
+
+// tunIndex: the connection a tunnel host name of this case belongs to.
+func (cr *caseRun) tunIndex(host string) (int, bool) {
+	if !strings.HasPrefix(host, "tun-") || !strings.HasSuffix(host, "-"+cr.nonce+".test") {
+		return 0, false
+	}
+	k, err := strconv.Atoi(strings.TrimSuffix(strings.TrimPrefix(host, "tun-"), "-"+cr.nonce+".test"))
+	if err != nil || k < 0 || k >= len(cr.conns) || cr.tunPeers[k] == nil {
+		return 0, false
+	}
+	return k, true
+}
+
+// dialArrived: the CONNECT of connection k has reached the place that completes its dial (the dial wrapper
+// of rig b, the dial redirect of rig a, the scripted upstream proxy). Logs "the origin has it" (o), holds a
+// "dial" connection back for DelayMs or until closing is known, logs "the origin answers" (a).
+func (cr *caseRun) dialArrived(k int) {
+	c := cr.conns[k]
+	cr.log.Add("o", k)
+	c.originGot(0)
+	if c.sc.Phase == "dial" {
+		if c.sc.Gate {
+			waitOr(cr.known, 8*time.Second)
+		} else {
+			waitOr(cr.finished, time.Duration(c.sc.DelayMs)*time.Millisecond)
+		}
+	}
+	cr.log.Add("a", k)
+}
 
 func (cr *caseRun) note(format string, a ...any) {
 	cr.notesMu.Lock()
@@ -72,7 +106,7 @@ func (cr *caseRun) setListenerClosed() { cr.lcOnce.Do(func() { close(cr.listener
 // patience: how long a script waits to learn that closing is set before it gives up and leaves. With
 // a shutdown that has no deadline (timeout matrix) Run returns only once every script has left.
 func (cr *caseRun) patience() time.Duration {
-	if cr.c.Matrix != "" {
+	if cr.c.Matrix != "" || cr.c.Family != "" {
 		return 6 * time.Second
 	}
 	return 20 * time.Second
@@ -214,9 +248,71 @@ func (cr *caseRun) startOrigins() error {
 	return nil
 }
 
+// startUpstream starts the scripted upstream HTTP proxy: a CONNECT is dialled to its tunnel target, held
+// back as dialArrived says, answered 200 and piped; a connection that starts with any other request is
+// relayed to the origin byte for byte (the origin understands absolute-form targets).
+func (cr *caseRun) startUpstream() error {
+	p, err := rig.NewRawPeer("upstream", func(pc *rig.PeerConn) {
+		b, err := pc.BR.Peek(8)
+		if err != nil {
+			return
+		}
+		if !bytes.HasPrefix(b, []byte("CONNECT ")) {
+			up, err := net.DialTimeout("tcp", cr.origin.Addr, 5*time.Second)
+			if err != nil {
+				return
+			}
+			defer up.Close()
+			relayBoth(pc, up)
+			return
+		}
+		req, err := rig.ReadRequest(pc.BR)
+		if err != nil || req == nil {
+			return
+		}
+		host, _, _ := net.SplitHostPort(req.Target)
+		k, ok := cr.tunIndex(host)
+		if !ok {
+			pc.Write(rig.Head("HTTP/1.1 502 Bad Gateway", []rig.Field{{Name: "Content-Length", Value: "0"}}))
+			return
+		}
+		up, err := net.DialTimeout("tcp", cr.tunPeers[k].Addr, 5*time.Second)
+		if err != nil {
+			pc.Write(rig.Head("HTTP/1.1 502 Bad Gateway", []rig.Field{{Name: "Content-Length", Value: "0"}}))
+			return
+		}
+		defer up.Close()
+		cr.dialArrived(k)
+		if _, err := pc.Write([]byte("HTTP/1.1 200 Connection established\r\n\r\n")); err != nil {
+			return
+		}
+		relayBoth(pc, up)
+	})
+	if err != nil {
+		return err
+	}
+	cr.upstream = p
+	return nil
+}
+
+// relayBoth copies both ways between a scripted peer's connection (bytes already buffered included) and up
+// until either direction ends, then closes both.
+func relayBoth(pc *rig.PeerConn, up net.Conn) {
+	done := make(chan struct{}, 2)
+	go func() { io.Copy(up, pc.BR); done <- struct{}{} }()
+	go func() { io.Copy(pc.Conn, up); done <- struct{}{} }()
+	<-done
+	up.Close()
+	pc.Conn.Close()
+	<-done
+}
+
 func (cr *caseRun) closeOrigins() {
 	if cr.origin != nil {
 		cr.origin.Close()
+	}
+	if cr.upstream != nil {
+		cr.upstream.Close()
 	}
 	for _, p := range cr.tunPeers {
 		p.Close()
@@ -229,10 +325,29 @@ func (cr *caseRun) startA() error {
 	for k, p := range cr.tunPeers {
 		routes = append(routes, rig.Route(cr.tunHost(k), "443", p.Addr))
 	}
+	if cr.upstream != nil {
+		routes = append(routes, rig.Route(cr.upHost(), "3128", cr.upstream.Addr))
+	}
+	redirect := forwarder.DialRedirectFromHostPortPairs(routes)
 	p, err := rig.StartProxy(rig.ProxyOpts{
 		ConnectTo: routes,
+		Transport: func(tc *forwarder.HTTPTransportConfig) {
+			// the dial of a "dial" connection's CONNECT is held back here (the redirect runs before the dialer
+			// connects); with an upstream proxy the upstream proxy holds back its 200 instead
+			tc.RedirectFunc = func(network, address string) (string, string) {
+				if host, _, err := net.SplitHostPort(address); err == nil && cr.upstream == nil {
+					if k, ok := cr.tunIndex(host); ok && cr.conns[k].sc.Phase == "dial" {
+						cr.dialArrived(k)
+					}
+				}
+				return redirect(network, address)
+			}
+		},
 		Configure: func(cfg *forwarder.HTTPProxyConfig) {
 			cfg.ShutdownTimeout = time.Duration(cr.c.TimeoutMs) * time.Millisecond
+			if cr.upstream != nil {
+				cfg.UpstreamProxy = rig.MustURL("http://" + cr.upHost() + ":3128")
+			}
 			if cr.c.PP {
 				cfg.ProxyProtocolConfig = &forwarder.ProxyProtocolConfig{ReadHeaderTimeout: 1500 * time.Millisecond}
 			}
@@ -258,32 +373,31 @@ func (cr *caseRun) startB() error {
 		if host == cr.originHost() {
 			return base.DialContext(ctx, "tcp", cr.origin.Addr)
 		}
+		if cr.upstream != nil && host == cr.upHost() {
+			return base.DialContext(ctx, "tcp", cr.upstream.Addr)
+		}
 		if strings.HasPrefix(host, "tun-") && strings.HasSuffix(host, "-"+cr.nonce+".test") {
-			k, err := strconv.Atoi(strings.TrimSuffix(strings.TrimPrefix(host, "tun-"), "-"+cr.nonce+".test"))
-			if err != nil || cr.tunPeers[k] == nil {
+			k, ok := cr.tunIndex(host)
+			if !ok {
 				return nil, fmt.Errorf("no such tunnel target %q", addr)
 			}
 			conn, err := base.DialContext(ctx, "tcp", cr.tunPeers[k].Addr)
 			if err != nil {
 				return nil, err
 			}
-			c := cr.conns[k]
-			cr.log.Add("o", k)
-			c.originGot(0)
-			if c.sc.Phase == "dial" {
-				if c.sc.Gate {
-					waitOr(cr.known, 8*time.Second)
-				} else {
-					waitOr(cr.finished, time.Duration(c.sc.DelayMs)*time.Millisecond)
-				}
-			}
-			cr.log.Add("a", k)
+			cr.dialArrived(k)
 			return conn, nil
 		}
 		return nil, fmt.Errorf("unroutable %q", addr)
 	}
 	tr := &http.Transport{DialContext: dial, MaxIdleConnsPerHost: 64, IdleConnTimeout: time.Minute}
+	var proxyURL func(*http.Request) (*url.URL, error)
+	if cr.upstream != nil {
+		// martian.Proxy hands ProxyURL to its transport as well: plain requests and CONNECTs go the same way
+		proxyURL = http.ProxyURL(rig.MustURL("http://" + cr.upHost() + ":3128"))
+	}
 	cr.mp = &martian.Proxy{
+		ProxyURL:            proxyURL,
 		RoundTripper:        tr,
 		DialContext:         dial,
 		IdleTimeout:         time.Hour,
